@@ -10,7 +10,8 @@ from .ctx import Ctx
 
 
 def literal_strs(e: ast.AST | None) -> list[str] | None:
-    """All string values an expression can take if it is a literal or a conditional of literals."""
+    """All string values an expression can take if it is a literal, a conditional of literals, or a concatenation / f-string
+    of such."""
     if e is None:
         return None
     if isinstance(e, ast.Constant) and isinstance(e.value, str):
@@ -20,7 +21,76 @@ def literal_strs(e: ast.AST | None) -> list[str] | None:
         if a is None or b is None:
             return None
         return a + b
+    if isinstance(e, ast.BinOp) and isinstance(e.op, ast.Add):
+        a, b = literal_strs(e.left), literal_strs(e.right)
+        if a is None or b is None or len(a) * len(b) > 16:
+            return None
+        return [x + y for x in a for y in b]
+    if isinstance(e, ast.JoinedStr):
+        acc = [""]
+        for v in e.values:
+            if isinstance(v, ast.Constant) and isinstance(v.value, str):
+                acc = [x + v.value for x in acc]
+            elif isinstance(v, ast.FormattedValue) and v.format_spec is None and v.conversion == -1:
+                alts = literal_strs(v.value)
+                if alts is None or len(acc) * len(alts) > 16:
+                    return None
+                acc = [x + y for x in acc for y in alts]
+            else:
+                return None
+        return acc
     return None
+
+
+def resolve_lit(f: "Func", e: ast.AST | None, depth: int = 0) -> ast.AST | None:
+    """`e` with every local that has a single definition replaced by that definition - including one component of
+    `a, b = (x, y) if c else (u, v)` - so that literal_strs / literal_ints can see through `kind = ...; push(kind + '_open', tag, 1)`."""
+    if e is None or depth > 4:
+        return e
+    if isinstance(e, ast.Name):
+        defs: list[ast.AST] = []
+        params = {a.arg for a in f.node.args.posonlyargs + f.node.args.args + f.node.args.kwonlyargs}
+        if e.id in params:
+            return e
+        for n in own_nodes(f.node):
+            if isinstance(n, ast.Assign):
+                for t in n.targets:
+                    if isinstance(t, ast.Name) and t.id == e.id:
+                        defs.append(n.value)
+                    elif isinstance(t, (ast.Tuple, ast.List)):
+                        for i, x in enumerate(t.elts):
+                            if isinstance(x, ast.Name) and x.id == e.id:
+                                v = n.value
+
+                                def comp(v: ast.AST, i: int = i, n_: int = len(t.elts)) -> ast.AST | None:
+                                    if isinstance(v, (ast.Tuple, ast.List)) and len(v.elts) == n_:
+                                        return v.elts[i]
+                                    if isinstance(v, ast.IfExp):
+                                        a, b = comp(v.body), comp(v.orelse)
+                                        if a is not None and b is not None:
+                                            return ast.IfExp(test=v.test, body=a, orelse=b)
+                                    return None
+                                cv = comp(v)
+                                defs.append(cv if cv is not None else ast.Name(id="?", ctx=ast.Load()))
+            elif isinstance(n, (ast.AugAssign, ast.AnnAssign, ast.For, ast.NamedExpr)) and any(
+                    isinstance(x, ast.Name) and x.id == e.id and isinstance(x.ctx, ast.Store) for x in ast.walk(getattr(n, "target", n))):
+                defs.append(ast.Name(id="?", ctx=ast.Load()))
+        if len(defs) == 1 and not (isinstance(defs[0], ast.Name) and defs[0].id == "?"):
+            return resolve_lit(f, defs[0], depth + 1)
+        return e
+    if isinstance(e, ast.BinOp) and isinstance(e.op, ast.Add):
+        return ast.BinOp(left=resolve_lit(f, e.left, depth + 1), op=e.op, right=resolve_lit(f, e.right, depth + 1))
+    if isinstance(e, ast.IfExp):
+        return ast.IfExp(test=e.test, body=resolve_lit(f, e.body, depth + 1), orelse=resolve_lit(f, e.orelse, depth + 1))
+    if isinstance(e, ast.JoinedStr):
+        vals = []
+        for v in e.values:
+            if isinstance(v, ast.FormattedValue):
+                vals.append(ast.FormattedValue(value=resolve_lit(f, v.value, depth + 1), conversion=v.conversion, format_spec=v.format_spec))
+            else:
+                vals.append(v)
+        return ast.JoinedStr(values=vals)
+    return e
 
 
 def literal_ints(e: ast.AST | None) -> list[int] | None:
@@ -75,6 +145,10 @@ def token_sites(c: Ctx) -> list[TokSite]:
                 if push_b in cs.callees and push_i in cs.callees:
                     via = "push:any"
                 te, ge, ne = _arg(n, 0, "ttype"), _arg(n, 1, "tag"), _arg(n, 2, "nesting")
+                if literal_strs(te) is None:
+                    te = resolve_lit(f, te)
+                if ge is not None and literal_strs(ge) is None:
+                    ge = resolve_lit(f, ge)
                 ts_ = TokSite(f, n, via, te, ge, ne, literal_strs(te))
                 _post_stores(f, n, ts_)
                 out.append(ts_)
